@@ -234,6 +234,12 @@ class Concat(Expr):
 
             columns = determine_column_projection(self, parent, dependents)
             columns = _convert_to_list(columns)
+            if self.ndim == 2 and set(self.columns).issubset(columns):
+                # All of our columns are needed (e.g. a Filter selects from us
+                # as well). Projecting the frames would only fork us: the
+                # dependents that aren't Projections keep the unprojected Concat
+                # and the two copies can end up partitioned differently.
+                return
             columns_frame = [
                 [col for col in get_columns_or_name(frame) if col in columns]
                 for frame in self._frames
